@@ -66,6 +66,23 @@ CHECKS = {
                      "NpuOperation list.",
                 note=TB + "; hand model of the emitter tied word for word with the real CommandStreamEmitter; open finding: out-of-range "
                      "fields are masked silently (out_of_range_rejected_refuted)"),
+    "C08": dict(cat="proof", ref="7/C08", technique="Coq theorems over a Gallina model of the weight/scale tensor layout, address derivation and cache state machine (encode_bias translated from the source every run; codec universally quantified) + correspondence and independent oracles using the reference decoder",
+                text="ranges_aligned_disjoint_ordered, scales_one_record_per_channel (every channel exactly once, under the slice-boundary "
+                     "hypothesis; counterexample kept), encode_bias_roundtrip, double_buffer_bounds / single_buffer_bounds, "
+                     "npu_ranges_inside_tensor, dma_length_is_slice, cache_reuse_sound for the real seven-field key with key_omits / "
+                     "key_contains / cache_reuse_refuted (function level only). The real encode_weight_and_scale_tensor is driven over "
+                     "operators, block depths, slice lists, 1/2 cores and cache histories; every weight section is decoded with the "
+                     "reference decoder and compared with an independent brick traversal; compiled models' ranges are checked against "
+                     "the flash tensor.",
+                note=TB + "; weight codec universally quantified (length multiple of 16 only; C07); hash(str(depth_offsets)) treated as injective"),
+    "C10": dict(cat="proof", ref="7/C10", technique="Coq theorems over a Gallina model of the stripe geometry (rolling_buffer_shape, needed_total_padding, _required_size translated from the source every run; transform_with_strides_and_skirt, create_padding, stripe loops, cascade interleaving by correspondence incl. the real generator) + proved tap validator on every captured stream",
+                text="stripes_partition/_disjoint/_cover (OFM boxes of the three nested loops partition the region), stripe_taps_equal "
+                     "(every tap through the stripe's box and pads equals the un-striped operator's tap, for all kernels, strides, "
+                     "dilations, SAME/VALID/EXPLICIT geometries, write offsets; stride-1 read offsets; NEAREST upscaling partial), "
+                     "rolling_buffer_sufficient with exact characterisation (all stride 1 and 2 cases, stride 3 except H = 1 mod 3) and "
+                     "rolling_tile_addresses, check_stripes_sound; five refutation theorems exhibit the open defects of the unchanged tree.",
+                note=TB + "; hardware tap semantics modelled; TRANSPOSE upscaling not covered; five open known findings (P10 and four "
+                     "read-offset / explicit-padding defects)"),
     "C09": dict(cat="proof", ref="7/C09", technique="Coq theorems over quantise_scale / reduced_quantise_scale / quantise_pooling_scale translated from the source every run (gen_*_eq lemmas) + correspondence for the float step, the elementwise triples and the register call sites",
                 text="quantise_scale_accurate(_Q): for every positive dyadic scale in range the pair has 2^30<=q<=2^31, 0<=shift<=63 and "
                      "relative error <= 2^-31; quantise_scale_degrades; quantise_scale_eq_tflite (same rational as TFLite "
